@@ -132,7 +132,11 @@ class CallMixin:
             # attribute store on an opaque object (e.g. e.args = ...): event
             st.emit("setattr", [v, VStr(name), val])
             return [("next", st, None)]
-        if isinstance(v, (VFn, VClass, VModule, VConst)):
+        if isinstance(v, (VModule, VConst)):
+            # assignment to an attribute of an external module / object (sys.path, sys.argv, ...): not tracked
+            self.abstractions.add("assignments to attributes of external modules (sys.path, sys.argv, process.ORIGINAL_DIR) are dropped")
+            return [("next", st, None)]
+        if isinstance(v, (VFn, VClass)):
             st.emit("setattr", [v, VStr(name), val])
             return [("next", st, None)]
         raise EngineError(f"attribute store on {v!r}")
